@@ -41,7 +41,50 @@ func init() {
 	})
 }
 
+// checkLookupsReadStore: every lookup of the routing table (a method that reads the shared store and
+// returns a value beside an error) answers from the store on every call: each success return is
+// preceded by a read of the store in that call.  An answer kept in the process (a cache of node
+// addresses or records) keeps resolving after another node changed or removed the entry.
+func checkLookupsReadStore(r *Report) {
+	n := 0
+	for _, f := range r.P.FuncsIn("internal/protocol/session/tunnel") {
+		if f.Signature.Recv() == nil || f.Signature.Results().Len() != 2 || len(f.Blocks) == 0 {
+			continue
+		}
+		if _, tn := recvTypeName(f.Signature.Recv().Type()); tn != "RoutingTable" {
+			continue
+		}
+		isGet := func(in ssa.Instruction) bool {
+			ci, ok := in.(ssa.CallInstruction)
+			if !ok || !ci.Common().IsInvoke() || ci.Common().Method.Name() != "Get" {
+				return false
+			}
+			return strings.Contains(originSummary(ci.Common().Value), "RoutingTable.storage")
+		}
+		has := false
+		Instrs(f, func(in ssa.Instruction) {
+			if isGet(in) {
+				has = true
+			}
+		})
+		if !has {
+			continue
+		}
+		for _, ret := range Returns(f) {
+			if RetErrKind(ret) != "nil" {
+				continue
+			}
+			n++
+			r.Ob("R-C09-2", ret.Pos(), MustPass(f, ret, isGet), "a lookup of the routing table reports success only after reading the shared store in this call (no answer from process-local state)", r.P.FuncName(f), "lookup-reads-store")
+		}
+	}
+	if n < 1 {
+		r.Fail("R-C09-2", 0, "no success return of a routing-table lookup found (LookupWaitingTunnel, GetNodeAddress confirmed by hand)", "RoutingTable", "lookup-reads-store:floor")
+	}
+}
+
 func runC09(r *Report) {
+	checkLookupsReadStore(r)
 	// a record kept alive by periodic re-registration outlives the gap between two refreshes: the
 	// node-address TTL exceeds the period of the ticker whose loop re-registers the address
 	if pk := r.P.ByPath[Module+"/"+tunPkg]; pk != nil {
